@@ -20,11 +20,13 @@ Emit ==
         s3 == SetToSeq((0..Scalars) \X (0..Scalars))
         o1 == SetToSeq(Opt(SeqsUpTo({0, 1, 2}, 2)) \X Opt(SeqsUpTo({0, 1, 2}, 2)))
         o3 == SetToSeq(Opt(0..Scalars) \X Opt(0..Scalars))
+        rc == SetToSeq({x \in MCFlat \X MCFlat : Len(x[1]) = RecordFields /\ Len(x[2]) = RecordFields})
         p4 == SetToSeq(((0..2) \X (0..2)) \X ((0..2) \X (0..2)))
     IN ndJsonSerialize(IOEnv.OUT,
             [q \in 1..Len(s1) |-> Vec("flat", 0, s1[q][1], s1[q][2])]
          \o [q \in 1..Len(s2) |-> Vec("nested", 0, s2[q][1], s2[q][2])]
          \o [q \in 1..Len(s3) |-> Vec("scalar", 0, s3[q][1], s3[q][2])]
+         \o [q \in 1..Len(rc) |-> Vec("record", 0, rc[q][1], rc[q][2])]
          \o [q \in 1..Len(o1) |-> Vec("flat", 1, o1[q][1], o1[q][2])]
          \o [q \in 1..Len(o3) |-> Vec("scalar", 1, o3[q][1], o3[q][2])]
          \o [q \in 1..Len(p4) |-> [m |-> "Cmp", kind |-> "pair", opt |-> 0, l |-> p4[q][1], r |-> p4[q][2],
